@@ -135,7 +135,7 @@ Proof.
   - (* an operation *)
     destruct (exec_op re t (th_k th) (st_sh σ) (local_of th) o) as [[s' l']|] eqn:Ex; [|discriminate].
     inversion Hs; subst σ'; clear Hs. unfold inv; cbn [st_sh st_thr].
-    set (th' := with_local th (r :: rest) l').
+    set (th' := with_local th (r :: rest) o l').
     assert (Hnth : forall o0, nth_error (st_thr σ) o0 <> None -> nth_error (upd (st_thr σ) t th') o0 <> None).
     { intros o0 Hn. destruct (Nat.eq_dec o0 t) as [->|Hne].
       - rewrite (nth_upd_eq _ _ _ _ _ Et). discriminate.
